@@ -11,6 +11,7 @@ import CTM.Lemmas.TreeLeaves
 import CTM.Lemmas.TreeValidate
 import Mathlib.Data.List.Perm.Basic
 import Mathlib.Data.List.Nodup
+import Mathlib.Data.List.Pairwise
 
 namespace CTM.StageFiles
 open CTM CTM.Stats CTM.Markers
@@ -826,6 +827,280 @@ theorem fileOK_permute (σ π : List Nat) (f : StatsFile) (hσ : IsPerm σ f.dat
     (hπ : IsPerm π f.colNames.length) (h : FileOK f) :
     FileOK (permuteGenes π (permuteRows σ f)) :=
   fileOK_permuteGenes π (permuteRows σ f) hπ (fileOK_permuteRows σ f hσ h)
+
+end CTM.StageFiles
+
+namespace CTM.StageFiles
+open CTM CTM.Stats CTM.Markers
+
+/-! ### the file written by the first stage -/
+
+/-- the cells, over all files, named in the taxonomy's cell list of `leaf` -/
+def membersOf (t : RawTree) (ll : Level) (files : List (Nat × List CellRec)) (leaf : Leaf) :
+    List CellRec :=
+  (files.flatMap (·.2)).filter (fun cell => (t.entry ll leaf).contains cell.name)
+
+theorem lookup_zipIdx (x : Nat) : ∀ (xs : List Nat) (k : Nat),
+    (xs.zipIdx k).lookup x = (indexIn xs x).map (· + k) := by
+  intro xs
+  induction xs with
+  | nil => intro k; rfl
+  | cons y ys ih =>
+    intro k
+    simp only [List.zipIdx_cons, List.lookup_cons, indexIn]
+    by_cases hxy : x = y
+    · subst hxy; simp
+    · have : (x == y) = false := by simpa using hxy
+      simp only [this, hxy, if_false, ih (k + 1), Option.map_map]
+      congr 1
+      funext i
+      simp only [Function.comp]
+      omega
+
+theorem lookup_enumerate (xs : List Nat) (x : Nat) : (enumerate xs).lookup x = indexIn xs x := by
+  simp [enumerate, lookup_zipIdx]
+
+/-- which cells the table sends to the row of `leaf`: those of the leaf's cell list -/
+theorem rowOf_leaf (l2c : List (Nat × List Nat)) (hkeys : (l2c.map (·.1)).Nodup)
+    (hdisj : l2c.Pairwise (fun a b => ∀ c ∈ a.2, c ∉ b.2)) (tbl : List (Nat × Nat))
+    (hnone : ∀ k, (∀ q ∈ l2c, k ∉ q.2) → tbl.lookup k = none)
+    (hsome : ∀ q ∈ l2c, ∀ k ∈ q.2, tbl.lookup k = indexIn (uniqueSorted (l2c.map (·.1))) q.1)
+    (leaf : Nat) (cs : List Nat) (hleaf : (leaf, cs) ∈ l2c) (r : Nat)
+    (hr : indexIn (uniqueSorted (l2c.map (·.1))) leaf = some r) (cell : CellRec) :
+    (rowOf tbl cell == some r) = cs.contains cell.name := by
+  unfold rowOf
+  by_cases hex : ∃ q ∈ l2c, cell.name ∈ q.2
+  · obtain ⟨q, hq, hin⟩ := hex
+    rw [hsome q hq _ hin]
+    by_cases hql : q.1 = leaf
+    · have hq' : q = (leaf, cs) := by
+        have h1 := RawTree.lookup_of_mem_nodup hkeys (show (q.1, q.2) ∈ l2c from hq)
+        have h2 := RawTree.lookup_of_mem_nodup hkeys hleaf
+        rw [hql, h2] at h1
+        cases h1
+        exact Prod.ext hql rfl
+      subst hq'
+      simp only at hin
+      rw [hr]
+      simp [hin]
+    · have hne : indexIn (uniqueSorted (l2c.map (·.1))) q.1 ≠ some r := by
+        intro he
+        have h1 := indexIn_getElem? _ _ _ he
+        have h2 := indexIn_getElem? _ _ _ hr
+        rw [h1] at h2
+        exact hql (Option.some.inj h2)
+      have hne' : q ≠ (leaf, cs) := fun he => hql (by rw [he])
+      have hsymm : Std.Symm (fun a b : Nat × List Nat => ∀ c ∈ a.2, c ∉ b.2) :=
+        ⟨fun a b h c hc hca => h c hca hc⟩
+      have hd := List.Pairwise.forall hdisj hq hleaf hne'
+      have : cell.name ∉ cs := hd _ hin
+      have e1 : (indexIn (uniqueSorted (l2c.map (·.1))) q.1 == some r) = false := by
+        simpa using hne
+      rw [e1]
+      simpa using this
+  · have hno : ∀ q ∈ l2c, cell.name ∉ q.2 := fun q hq hin => hex ⟨q, hq, hin⟩
+    rw [hnone _ hno]
+    have : cell.name ∉ cs := hno _ hleaf
+    simpa using this
+
+theorem cellsOfRow_eq_membersOf (t : RawTree) (ll : Level) (files : List (Nat × List CellRec))
+    (hkeys : (t.nodesAt ll).Nodup)
+    (hdisj : (t.level ll).Pairwise (fun a b => ∀ c ∈ a.2, c ∉ b.2)) (tbl : List (Nat × Nat))
+    (hnone : ∀ k, (∀ q ∈ t.level ll, k ∉ q.2) → tbl.lookup k = none)
+    (hsome : ∀ q ∈ t.level ll, ∀ k ∈ q.2,
+      tbl.lookup k = indexIn (uniqueSorted ((t.level ll).map (·.1))) q.1)
+    (leaf : Nat) (hleaf : leaf ∈ t.nodesAt ll) (r : Nat)
+    (hr : indexIn (uniqueSorted ((t.level ll).map (·.1))) leaf = some r) :
+    cellsOfRow tbl r (files.flatMap (·.2)) = membersOf t ll files leaf := by
+  unfold cellsOfRow membersOf
+  apply List.filter_congr
+  intro cell _
+  exact rowOf_leaf (t.level ll) hkeys hdisj tbl hnone hsome leaf (t.entry ll leaf)
+    (RawTree.mem_level_entry hleaf) r hr cell
+
+/-- **the file the first stage writes**: `cluster_to_row` sends every leaf of the taxonomy to
+a row inside the arrays, of the width of `col_names`, and the mean the reader reports for
+(leaf, gene position `j`) is the mean over the cells the taxonomy lists for that leaf. -/
+theorem writeStats_spec (t : RawTree) (genes : List Gene) (files : List (Nat × List CellRec))
+    (rows nProc : Nat) (f : StatsFile) (ll : Level) (hrows : 1 ≤ rows) (hproc : 1 ≤ nProc)
+    (hll : t.leafLevel = some ll) (hkeys : (t.nodesAt ll).Nodup)
+    (hdisj : (t.level ll).Pairwise (fun a b => ∀ c ∈ a.2, c ∉ b.2))
+    (hg : ∀ fl ∈ files, ∀ cell ∈ fl.2, cell.vals.length = genes.length)
+    (h : writeStats t genes files rows nProc = .ok f) :
+    FileOK f ∧ f.colNames = genes ∧ f.tree = t ∧
+    f.clusterToRow = enumerate (uniqueSorted (t.nodesAt ll)) ∧
+    f.data.length = (uniqueSorted (t.nodesAt ll)).length ∧
+    ∀ leaf ∈ leavesOf t, ∃ r row,
+      indexIn (uniqueSorted (t.nodesAt ll)) leaf = some r ∧ f.clusterToRow.lookup leaf = some r ∧
+      f.data[r]? = some row ∧ row.genes.length = genes.length ∧
+      row.n = (membersOf t ll files leaf).length ∧
+      leafMeanRow f leaf = .ok (row.genes.map (fun s => meanOf row.n s.sum)) ∧
+      ∀ j, j < genes.length →
+        (row.genes.map (fun s => meanOf row.n s.sum))[j]? =
+          some (meanOf (membersOf t ll files leaf).length
+            ((membersOf t ll files leaf).map (fun cell => cell.vals.getD j 0)).sum) := by
+  unfold writeStats at h
+  simp only [hll] at h
+  obtain ⟨tbl, htbl, hbound, hnone, hsome⟩ := nameToRowOfTree_spec (t.level ll)
+  have hsome := hsome hdisj
+  simp only [htbl] at h
+  cases hpre : precompute (uniqueSorted ((t.level ll).map (·.1))).length genes.length tbl files rows
+      nProc with
+  | error e => simp [hpre] at h
+  | ok buf =>
+    simp only [hpre, Except.ok.injEq] at h
+    subst h
+    have hw : ∃ fl ∈ files, wanted tbl fl.2 = true := by
+      by_contra hno
+      have : ∀ fl ∈ files, wanted tbl fl.2 = false := by
+        intro fl hfl
+        cases hwf : wanted tbl fl.2 with
+        | false => rfl
+        | true => exact absurd ⟨fl, hfl, hwf⟩ hno
+      rw [precompute_no_wanted _ _ _ _ _ _ hproc this] at hpre
+      cases hpre
+    obtain ⟨buf1, hb1, hlen1, hrow1⟩ := precompute_spec _ genes.length tbl files rows nProc hrows
+      hproc hbound hw
+    obtain ⟨buf2, hb2, hfld⟩ := precompute_fields _ genes.length tbl files rows nProc hrows
+      hproc hbound hw hg
+    rw [hpre] at hb1 hb2
+    cases hb1
+    cases hb2
+    have hnodes : (t.level ll).map (·.1) = t.nodesAt ll := rfl
+    have hmain : ∀ leaf ∈ leavesOf t, ∃ r row,
+        indexIn (uniqueSorted (t.nodesAt ll)) leaf = some r ∧
+        (enumerate (uniqueSorted (t.nodesAt ll))).lookup leaf = some r ∧
+        buf[r]? = some row ∧ row.genes.length = genes.length ∧
+        row.n = (membersOf t ll files leaf).length ∧
+        ∀ j, j < genes.length →
+          (row.genes.map (fun s => meanOf row.n s.sum))[j]? =
+            some (meanOf (membersOf t ll files leaf).length
+              ((membersOf t ll files leaf).map (fun cell => cell.vals.getD j 0)).sum) := by
+      intro leaf hl
+      have hl' : leaf ∈ t.nodesAt ll := by simpa [leavesOf, hll] using hl
+      obtain ⟨r, hr⟩ := indexIn_of_mem (uniqueSorted (t.nodesAt ll)) leaf
+        ((mem_uniqueSorted _ _).2 hl')
+      have hrlt := indexIn_lt _ _ _ hr
+      have hcells := cellsOfRow_eq_membersOf t ll files hkeys hdisj tbl hnone hsome leaf hl' r hr
+      have hwidth : ((Row.zero genes.length).add (S tbl r (files.flatMap (·.2)))).genes.length
+          = genes.length := by
+        rw [← summaryStats_cellsOfRow]
+        apply zero_add_summaryStats_length
+        intro c hc
+        obtain ⟨cell, hcell, rfl⟩ := List.mem_map.1 hc
+        have hcell' := (List.mem_filter.1 hcell).1
+        obtain ⟨fl, hfl, hin⟩ := List.mem_flatMap.1 hcell'
+        exact hg fl hfl cell hin
+      refine ⟨r, _, hr, by rw [lookup_enumerate]; exact hr, hrow1 r hrlt, hwidth, ?_, ?_⟩
+      · by_cases hg0 : 0 < genes.length
+        · obtain ⟨row, s, e1, _, e3, _⟩ := hfld r 0 hrlt hg0
+          rw [hrow1 r hrlt] at e1
+          cases e1
+          rw [e3, hcells]
+        · simp only [Row.add, Row.zero, S, rowSum_cellStat_n, Nat.zero_add, hcells]
+      · intro j hj
+        obtain ⟨row, s, e1, e2, e3, e4, _⟩ := hfld r j hrlt hj
+        rw [hrow1 r hrlt] at e1
+        cases e1
+        rw [List.getElem?_map, e2, Option.map_some, e3, e4, hcells]
+    refine ⟨?_, rfl, rfl, rfl, hlen1, ?_⟩
+    · intro leaf hl
+      obtain ⟨r, row, _, h2, h3, h4, _⟩ := hmain leaf hl
+      exact ⟨r, row, h2, h3, h4⟩
+    · intro leaf hl
+      obtain ⟨r, row, h1, h2, h3, h4, h5, h6⟩ := hmain leaf hl
+      exact ⟨r, row, h1, h2, h3, h4, h5,
+        leafMeanRow_of_row _ leaf r row h2 h3 h4, h6⟩
+
+end CTM.StageFiles
+
+namespace CTM.StageFiles
+open CTM CTM.Stats CTM.Markers
+
+/-- the mean over the taxonomy's cells of `leaf` of the value in gene column `j` -/
+def memberMean (t : RawTree) (ll : Level) (files : List (Nat × List CellRec)) (leaf : Leaf)
+    (j : Nat) : Rat :=
+  meanOf (membersOf t ll files leaf).length
+    ((membersOf t ll files leaf).map (fun cell => cell.vals.getD j 0)).sum
+
+/-- every row of the written arrays has the width of `col_names` -/
+theorem writeStats_widths (t : RawTree) (genes : List Gene) (files : List (Nat × List CellRec))
+    (rows nProc : Nat) (f : StatsFile) (ll : Level) (hrows : 1 ≤ rows) (hproc : 1 ≤ nProc)
+    (hll : t.leafLevel = some ll) (hkeys : (t.nodesAt ll).Nodup)
+    (hdisj : (t.level ll).Pairwise (fun a b => ∀ c ∈ a.2, c ∉ b.2))
+    (hg : ∀ fl ∈ files, ∀ cell ∈ fl.2, cell.vals.length = genes.length)
+    (h : writeStats t genes files rows nProc = .ok f) :
+    ∀ row ∈ f.data, row.genes.length = f.colNames.length := by
+  obtain ⟨_, hcn, _, _, hlen, hmain⟩ :=
+    writeStats_spec t genes files rows nProc f ll hrows hproc hll hkeys hdisj hg h
+  intro row hr
+  obtain ⟨r, hrl, he⟩ := List.getElem_of_mem hr
+  have hrl' : r < (uniqueSorted (t.nodesAt ll)).length := by omega
+  have hleaf : (uniqueSorted (t.nodesAt ll))[r] ∈ leavesOf t := by
+    simp only [leavesOf, hll]
+    exact (mem_uniqueSorted _ _).1 (List.getElem_mem hrl')
+  obtain ⟨r', row', h1, _, h3, h4, _⟩ := hmain _ hleaf
+  rw [indexIn_of_nodup _ (uniqueSorted_nodup _) r hrl'] at h1
+  cases h1
+  rw [List.getElem?_eq_getElem hrl, he] at h3
+  cases h3
+  rw [hcn]
+  exact h4
+
+/-- the written file read by NAME: the value for (leaf name, gene name) is the mean over the
+leaf's cells of the column the gene name has in `genes` -/
+theorem writeStats_meanByName (t : RawTree) (genes : List Gene) (files : List (Nat × List CellRec))
+    (rows nProc : Nat) (f : StatsFile) (ll : Level) (hrows : 1 ≤ rows) (hproc : 1 ≤ nProc)
+    (hll : t.leafLevel = some ll) (hkeys : (t.nodesAt ll).Nodup)
+    (hdisj : (t.level ll).Pairwise (fun a b => ∀ c ∈ a.2, c ∉ b.2))
+    (hg : ∀ fl ∈ files, ∀ cell ∈ fl.2, cell.vals.length = genes.length)
+    (h : writeStats t genes files rows nProc = .ok f) (leaf : Leaf) (hl : leaf ∈ leavesOf t)
+    (g : Gene) (j : Nat) (hj : nameToIdx genes g = some j) :
+    meanByName f leaf g = some (memberMean t ll files leaf j) := by
+  obtain ⟨_, hcn, _, _, _, hmain⟩ :=
+    writeStats_spec t genes files rows nProc f ll hrows hproc hll hkeys hdisj hg h
+  obtain ⟨r, row, _, _, _, _, _, h6, h7⟩ := hmain leaf hl
+  have hjl : j < genes.length := (List.getElem?_eq_some_iff.1 (nameToIdx_some genes g j hj)).1
+  unfold meanByName
+  rw [h6, hcn, hj]
+  exact h7 j hjl
+
+/-- a validated taxonomy lists no cell under two leaves -/
+theorem disjoint_of_strict (t : RawTree) (s : RawTree.Strict t) (ll : Level)
+    (hll : t.leafLevel = some ll) :
+    (t.level ll).Pairwise (fun a b => ∀ c ∈ a.2, c ∉ b.2) := by
+  have h := s.rowsNodup
+  simp only [RawTree.allRows, hll] at h
+  have := (List.nodup_flatMap.1 h).2
+  refine List.Pairwise.imp ?_ this
+  intro a b hd c hca hcb
+  exact hd hca hcb
+
+end CTM.StageFiles
+
+namespace CTM.StageFiles
+open CTM CTM.Stats CTM.Markers
+
+theorem leafLevel_mem (t : RawTree) (ll : Level) (hll : t.leafLevel = some ll) : ll ∈ t.hierarchy := by
+  unfold RawTree.leafLevel at hll
+  exact List.mem_of_getLast? hll
+
+/-- no file holds a cell the taxonomy names: the first stage fails instead of writing zeros -/
+theorem writeStats_no_cells (t : RawTree) (genes : List Gene) (files : List (Nat × List CellRec))
+    (rows nProc : Nat) (ll : Level) (hproc : 1 ≤ nProc) (hll : t.leafLevel = some ll)
+    (hno : ∀ fl ∈ files, ∀ cell ∈ fl.2, ∀ q ∈ t.level ll, cell.name ∉ q.2) :
+    writeStats t genes files rows nProc = .error (.stats .noBuffers) := by
+  unfold writeStats
+  simp only [hll]
+  obtain ⟨tbl, htbl, _, hnone, _⟩ := nameToRowOfTree_spec (t.level ll)
+  simp only [htbl]
+  rw [precompute_no_wanted _ _ _ _ _ _ hproc (by
+    intro fl hfl
+    unfold wanted
+    rw [List.any_eq_false]
+    intro cell hc
+    simp only [rowOf, hnone cell.name (hno fl hfl cell hc), Option.isSome_none, Bool.false_eq_true,
+      not_false_eq_true])]
 
 end CTM.StageFiles
 
